@@ -7,7 +7,7 @@ H = importlib.import_module("harness.c18")
 ID = "C18"
 PROP_MODULE = "SquidModel.Properties.C18"
 MODEL = "c18"
-GEN = []
+GEN = ["collapse_flags"]
 MINIMISE_BUDGET = 30
 MAX_REPORT = 4
 RULE = ("scenario = collapsed_forwarding on/off x origin response (cacheable 200 / shareable-only 404 / Cache-Control: private; Content-Length, "
@@ -55,7 +55,7 @@ class GuardedHarness(H.Harness):
             model = [None] * len(lines)
         for attempt in range(2):
             bad = [i for i, (l, o, m) in enumerate(zip(lines, outs, model))
-                   if o != "bad-op" and (oracle(l, o) or (m is not None and not compare(l, o, m)))]
+                   if o != "bad-op" and ((oracle(l, o) and not classify(l, o, oracle(l, o))) or (m is not None and not compare(l, o, m)))]
             if not bad or len(bad) > 25:
                 break
             for i in bad:
@@ -118,6 +118,8 @@ def boundary_cases():
             yield fmt("on", ("P", F, n, "ok"), None, ["0g", "1g", "2g", "3g"])
         yield fmt("on", ("P", F, 5000, "ok"), None, ["0g"] * 19)
         yield fmt("on", ("P", F, 5000, "ok"), 0, ["0g", "0g", "1g"])
+        yield fmt("on", ("P", F, 5000, "ok"), None, ["1g", "3g"])
+        yield fmt("on", ("P", F, 2000, "ok"), None, ["3g", "3g"])
         yield fmt("off", ("P", F, 5000, "ok"), None, ["0g", "0g", "1g", "2g", "3g"])
         yield fmt("on", ("S", F, 700, "ok"), None, ["0g", "0g", "1g", "1g", "2g", "3g"])
         yield fmt("on", ("N", F, 700, "ok"), None, ["0g", "0g", "1g", "1g", "2g", "3g"])
@@ -234,6 +236,23 @@ def oracle(l, impl):
     kept = sc["leader"] is None or sc["leader"] > 0 or any(w == 0 and k == "g" for w, k in sc["fol"])
     if sc["cf"] == "on" and sc["T"] == "P" and sc["E"] == "ok" and plain and kept and nf > 1:
         return "%d origin fetches for a burst of plain requests for a cacheable URL whose first fetch completed" % nf
+    return private_shared(l, impl)
+
+
+F_PRIVATE = "C18-private-reply-shared-after-release"
+
+
+def private_shared(l, impl):
+    """a reply marked Cache-Control: private served to a client that did not fetch it (not part of C18's statement, but of the
+    collapsing logic the model covers: theorem unshareable_never_served_to_collapsed_*)"""
+    sc = H.parse_line(l)
+    if sc is None or sc["T"] != "N":
+        return None
+    nf, toks = tokens(impl)
+    for g, tk in toks:
+        f = tk.split(":")
+        if len(f) == 4 and f[0] == "200" and f[3] == "h":
+            return "client in %s was served a `Cache-Control: private` reply that another client's request fetched: %s" % (g, tk)
     return None
 
 
@@ -242,6 +261,11 @@ def compare(l, impl, model):
 
 
 def classify(l, impl, why):
+    sc = H.parse_line(l)
+    # narrow: only the private-reply clause, only when some other request could have released the entry before its reply header came:
+    # a no-cache request, or (collapsed_forwarding on) another fetch's reply calling httpMaybeRemovePublic
+    if sc and why and "Cache-Control: private" in why and sc["T"] == "N" and any(k == "n" for w, k in sc["fol"]):
+        return F_PRIVATE
     return None
 
 
